@@ -107,7 +107,7 @@ func newC07Stack(scratch, name string) *c07Stack {
 		db2 := verifx.Must(sqlite.OpenDatabase(filepath.Join(dir, "outbox", "outbox.db")))
 		repo := verifx.Must(repositoryfactory.NewStorageOutboxEntryRepository(db2))
 		// the outbox worker replays queued (= unconditional) writes through this double, which makes
-		// every replay take a little longer than a call needs to reach the inner storage: a
+		// every replay take 120 ms longer than a call needs to reach the inner storage: a
 		// conditional write that failed to drain the key's queue first then reliably overtakes the
 		// queued write. (It only widens that window; verdicts depend on recorded orders alone.)
 		obx := verifx.Must(outbox.NewStorage(db2, "default", &c07SlowReplay{Storage: inner.Storage}, repo, prometheus.NewRegistry(), 30*time.Second))
@@ -127,14 +127,14 @@ type c07SlowReplay struct{ storage.Storage }
 
 func (w *c07SlowReplay) PutObject(ctx context.Context, b storage.BucketName, k storage.ObjectKey, ct *string, r io.Reader, ci *storage.ChecksumInput, o *storage.PutObjectOptions) (*storage.PutObjectResult, error) {
 	if o == nil || (!o.IfNoneMatchStar && o.IfMatchETag == nil) {
-		time.Sleep(25 * time.Millisecond)
+		time.Sleep(120 * time.Millisecond)
 	}
 	return w.Storage.PutObject(ctx, b, k, ct, r, ci, o)
 }
 
 func (w *c07SlowReplay) DeleteObject(ctx context.Context, b storage.BucketName, k storage.ObjectKey, o *storage.DeleteObjectOptions) (*storage.DeleteObjectResult, error) {
 	if o == nil || o.IfMatchETag == nil {
-		time.Sleep(25 * time.Millisecond)
+		time.Sleep(120 * time.Millisecond)
 	}
 	return w.Storage.DeleteObject(ctx, b, k, o)
 }
